@@ -465,4 +465,128 @@ theorem mergedCol_u64_supplied (segs : List SegVals) (hok : ∀ s ∈ segs, s.ok
     have hnI : ¬ (allI64 (segs.map SegVals.src) = true) := fun h => hI (hallI.mp h)
     rw [if_neg hnI, if_pos hallU, hall]; rfl
 
+/-! ### merged column type = write-time type of the union (any mix of supplied types) -/
+
+/-- a segment's values (`true`: supplied as u64) with the min / max its column records -/
+structure SegMix where
+  vals : List (Bool × Int)
+  mn : Int
+  mx : Int
+
+def SegMix.ok (s : SegMix) : Prop :=
+  (∃ b, (b, s.mn) ∈ s.vals) ∧ (∃ b, (b, s.mx) ∈ s.vals) ∧ (∀ p ∈ s.vals, s.mn ≤ p.2 ∧ p.2 ≤ s.mx)
+    ∧ (∀ p ∈ s.vals, p.1 = true → 0 ≤ p.2)
+
+def SegMix.src (s : SegMix) : Src := ⟨writtenCol s.vals, s.mn, s.mx⟩
+
+theorem pI_false_elim {vals : List (Bool × Int)} (h : ¬ pI vals = true) :
+    ∃ p ∈ vals, p.1 = true ∧ I64MAX ≤ p.2 := by
+  apply Classical.byContradiction
+  intro hn
+  apply h
+  unfold pI
+  rw [List.all_eq_true]
+  intro p hp
+  cases hb : p.1 with
+  | false => rfl
+  | true =>
+    simp only [Bool.not_true, Bool.false_or, decide_eq_true_eq]
+    apply Int.lt_of_not_ge
+    intro hge
+    exact hn ⟨p, hp, hb, hge⟩
+
+theorem pU_false_elim {vals : List (Bool × Int)} (h : ¬ pU vals = true) :
+    ∃ p ∈ vals, p.1 = false ∧ p.2 < 0 := by
+  apply Classical.byContradiction
+  intro hn
+  apply h
+  unfold pU
+  rw [List.all_eq_true]
+  intro p hp
+  cases hb : p.1 with
+  | true => rfl
+  | false =>
+    simp only [Bool.false_or, decide_eq_true_eq]
+    apply Int.le_of_not_gt
+    intro hlt
+    exact hn ⟨p, hp, hb, hlt⟩
+
+theorem src_allI (s : SegMix) (h : s.ok) :
+    (match s.src.col with
+      | .u64 => decide (s.src.mn < I64MAX) && decide (s.src.mx < I64MAX)
+      | .i64 => true
+      | .f64 => false) = pI s.vals := by
+  simp only [SegMix.src, writtenCol]
+  by_cases hI : pI s.vals = true
+  · rw [if_pos hI, hI]
+  · have hf : pI s.vals = false := by cases hx : pI s.vals <;> simp_all
+    rw [if_neg hI, hf]
+    by_cases hU : pU s.vals = true
+    · rw [if_pos hU]
+      obtain ⟨p, hp, _, hge⟩ := pI_false_elim hI
+      have hle := (h.2.2.1 p hp).2
+      have : ¬ (s.mx < I64MAX) := by omega
+      simp [this]
+    · rw [if_neg hU]
+
+theorem src_allU (s : SegMix) (h : s.ok) :
+    (match s.src.col with
+      | .i64 => decide (0 ≤ s.src.mn) && decide (0 ≤ s.src.mx)
+      | .u64 => true
+      | .f64 => false) = pU s.vals := by
+  simp only [SegMix.src, writtenCol]
+  by_cases hI : pI s.vals = true
+  · rw [if_pos hI]
+    by_cases hU : pU s.vals = true
+    · rw [hU]
+      obtain ⟨b, hb⟩ := h.1
+      obtain ⟨b', hb'⟩ := h.2.1
+      have hmn : 0 ≤ s.mn := by
+        cases b with
+        | true => exact h.2.2.2 _ hb rfl
+        | false =>
+          have := List.all_eq_true.mp hU _ hb
+          simpa using this
+      have hle : s.mn ≤ s.mx := (h.2.2.1 _ hb').1
+      have hmx : 0 ≤ s.mx := by omega
+      simp [hmn, hmx]
+    · have hf : pU s.vals = false := by cases hx : pU s.vals <;> simp_all
+      rw [hf]
+      obtain ⟨p, hp, _, hlt⟩ := pU_false_elim hU
+      have hle := (h.2.2.1 p hp).1
+      have : ¬ (0 ≤ s.mn) := by omega
+      simp [this]
+  · rw [if_neg hI]
+    by_cases hU : pU s.vals = true
+    · rw [if_pos hU, hU]
+    · have hf : pU s.vals = false := by cases hx : pU s.vals <;> simp_all
+      rw [if_neg hU, hf]
+
+theorem all_map_congr' {α β : Type} (l : List α) (f : α → β) (p : β → Bool) (q : α → Bool)
+    (h : ∀ a ∈ l, p (f a) = q a) : (l.map f).all p = l.all q := by
+  induction l with
+  | nil => rfl
+  | cons a t ih =>
+    simp only [List.map_cons, List.all_cons]
+    rw [h a (List.mem_cons_self ..), ih (fun x hx => h x (List.mem_cons_of_mem _ hx))]
+
+theorem pI_flatMap (segs : List SegMix) : pI (segs.flatMap (·.vals)) = segs.all (fun s => pI s.vals) := by
+  unfold pI
+  rw [List.all_flatMap]
+
+theorem pU_flatMap (segs : List SegMix) : pU (segs.flatMap (·.vals)) = segs.all (fun s => pU s.vals) := by
+  unfold pU
+  rw [List.all_flatMap]
+
+/-- the merged segment's column type is the write-time type of all source values together, for any
+mix of i64- and u64-supplied values (f64 included: negative values next to values ≥ i64::MAX) -/
+theorem mergedCol_mixed (segs : List SegMix) (hok : ∀ s ∈ segs, s.ok) :
+    mergedCol (segs.map SegMix.src) = writtenCol (segs.flatMap (·.vals)) := by
+  have hI : allI64 (segs.map SegMix.src) = segs.all (fun s => pI s.vals) :=
+    all_map_congr' segs SegMix.src _ _ (fun s hs => src_allI s (hok s hs))
+  have hU : allU64 (segs.map SegMix.src) = segs.all (fun s => pU s.vals) :=
+    all_map_congr' segs SegMix.src _ _ (fun s hs => src_allU s (hok s hs))
+  unfold mergedCol writtenCol
+  rw [hI, hU, pI_flatMap, pU_flatMap]
+
 end TantivyModel.JsonRange
